@@ -14,8 +14,9 @@
 //	engine 3  real server with the experimental flag weighted_graph_check,
 //	engine 4  engine 0's ListObjects steps with the experimental flag enable-list-objects-optimizations,
 //
-// each WITHOUT the Check query cache (reference; twice, to recognise answers that are unstable on
-// their own) and WITH one shared cache (several runs: goroutine order decides what gets cached).
+// each WITHOUT the Check query cache (reference; twice, and six more times when a cached answer was
+// not among the reference answers: answers that are unstable on their own are recognised that way)
+// and WITH one shared cache (several runs: goroutine order decides what gets cached).
 // For engine 0 the content of the shared cache is read back at the end of every cached run
 // (every key storage.CheckCacheKey(store, object, relation, user, invariant) of the universe).
 //
@@ -38,13 +39,12 @@ import (
 	"github.com/oklog/ulid/v2"
 	openfgav1 "github.com/openfga/api/proto/openfga/v1"
 	"github.com/prometheus/client_golang/prometheus"
-	dto "github.com/prometheus/client_model/go"
 	"google.golang.org/grpc/status"
 	"google.golang.org/protobuf/types/known/structpb"
 
 	"github.com/openfga/openfga/internal/cachecontroller"
 	"github.com/openfga/openfga/internal/check"
-	checkmetrics "github.com/openfga/openfga/internal/check/metrics"
+	_ "github.com/openfga/openfga/internal/check/metrics"
 	"github.com/openfga/openfga/internal/condition"
 	"github.com/openfga/openfga/pkg/featureflags"
 	"github.com/openfga/openfga/internal/graph"
@@ -1288,19 +1288,31 @@ func runCase(ctx context.Context, w *rec.Writer, s *scen.Scenario, p *Plan) {
 		rec.I(1), rec.L(models...), rec.L(wvs...), atoms, rec.L(svs...), rec.I(p.Depth), rec.I(flags), rec.L(stepvs...), rec.L(engvs...))
 }
 
-func counterValue(c prometheus.Counter) int {
-	var m dto.Metric
-	if err := c.Write(&m); err != nil {
-		return 0
-	}
-	return int(m.GetCounter().GetValue())
-}
-
-// cache counters of internal/check/metrics (shared by CachedCheckResolver and the weighted-graph engine)
+// cache counters of internal/check/metrics (shared by CachedCheckResolver and the weighted-graph
+// engine), read through the default registry (no direct dependency on prometheus/client_model)
 type cacheCounters struct{ lookups, hits, invalid int }
 
 func readCounters() cacheCounters {
-	return cacheCounters{counterValue(checkmetrics.CacheLookupCounter), counterValue(checkmetrics.CacheHitCounter), counterValue(checkmetrics.CacheInvalidHitCounter)}
+	var c cacheCounters
+	mfs, err := prometheus.DefaultGatherer.Gather()
+	if err != nil {
+		return c
+	}
+	for _, mf := range mfs {
+		if len(mf.GetMetric()) == 0 {
+			continue
+		}
+		v := int(mf.GetMetric()[0].GetCounter().GetValue())
+		switch mf.GetName() {
+		case "openfga_check_cache_total_count":
+			c.lookups = v
+		case "openfga_check_cache_hit_count":
+			c.hits = v
+		case "openfga_check_cache_invalid_hit_count":
+			c.invalid = v
+		}
+	}
+	return c
 }
 
 var totalHits, cachedRuns int
